@@ -755,13 +755,22 @@ def rule_r8(ck, prog, roles):
                 ck.violation('C02.R8', f, 'untimed-wait', n, 'untimed future wait')
 
 
+def rule_r6_no_detach(ck, prog, roles, rule='C02.R6'):
+    """no thread of a class that drives an exporter is ever detached: Shutdown joins what it started, and a detached thread can
+    still call the exporter after Shutdown has returned"""
+    hits = [(f, n) for f in roles.funcs for n in f.nodes if n['k'] == 'call' and strip_targs(n.get('c', '') or '') == 'std::thread::detach']
+    ck.verdict(not hits, rule, hits[0][0] if hits else roles.funcs[0], 'no-detached-thread:%s' % roles.short, hits[0][1] if hits else None,
+               'no thread is detached' if not hits else
+               '%s detaches a thread: it is not joined by Shutdown and can call the exporter after Shutdown (or the cycle that started it) has returned' % roles.short)
+
+
 def run(ck, prog):
     ck.doc('C02.R1', 'worker cycle: pending flush ticket is loaded before every queue snapshot of the same iteration', 5)
     ck.doc('C02.R2', 'publication of the notified counter: value from the ticket load; after Export; after exporter ForceFlush', 8)
     ck.doc('C02.R3', 'every return of the public flush entry is false or notified >= own ticket', 5)
     ck.doc('C02.R4', 'every flush layer: a false child result forces a false return on every feasible path', 12)
     ck.doc('C02.R5', 'exporter/child Shutdown guarded by the first-caller outcome of an atomic read-modify-write', 5)
-    ck.doc('C02.R6', 'worker joined before exporter Shutdown; exporter calls only from the worker; periodic OnShutDown joins', 12)
+    ck.doc('C02.R6', 'worker joined before exporter Shutdown; exporter calls only from the worker; periodic OnShutDown joins; no thread is detached', 15)
     ck.doc('C02.R7', 'batch OnEnd/OnEmit/ForceFlush: shutdown gate dominates every effectful event', 4)
     ck.doc('C02.R8', 'every condition-variable wait in these classes is timed', 5)
     ck.doc('C02.R9', 'after the exporter flush the ticket publication follows on every path (necessary for termination)', 2)
@@ -801,6 +810,7 @@ def run(ck, prog):
         rule_r3(ck, prog, roles, notified)
         rule_r5(ck, prog, cls)
         rule_r6_join(ck, prog, roles)
+        rule_r6_no_detach(ck, prog, roles)
         c03.rule_r2(ck, prog, cg, roles, rule='C02.R6', which=EXPORTER_EXPORT + EXPORTER_FLUSH, what='Export/ForceFlush')
         rule_r7(ck, prog, roles, [producer, 'ForceFlush'])
         rule_r8(ck, prog, roles)
@@ -810,6 +820,7 @@ def run(ck, prog):
     notified = rule_r1_r2(ck, prog, cg, pr, batch=False)
     rule_r3(ck, prog, pr, notified)
     rule_r6_join(ck, prog, pr, batch=False)
+    rule_r6_no_detach(ck, prog, pr)
     c03.rule_r2(ck, prog, cg, pr, rule='C02.R6', which=EXPORTER_EXPORT, what='Export')
     rule_r8(ck, prog, pr)
     rule_r5(ck, prog, 'sdk::trace::SimpleSpanProcessor')
